@@ -122,9 +122,13 @@ class W:
         self.sim = simnet.World(("c17", m.seed))
         self.ov: dict[str, IdentityCommunity] = {}
         idx = fixtures.rotate(m.seed, len(NODES))
+        shared = IdentityManager(":memory:") if m.cfg.get("shared_manager") else None
         for name, ki in zip(NODES, idx):
             node = self.sim.add_node(name, ki)
-            settings = IdentitySettings(identity_manager=IdentityManager(":memory:"))
+            # shared_manager: B and D are two pseudonyms of one process (CommunicationManager gives all its pseudonyms
+            # the same IdentityManager); each still has its own key, overlay and token chain
+            manager = shared if shared is not None and name in ("B", "D") else IdentityManager(":memory:")
+            settings = IdentitySettings(identity_manager=manager)
             self.ov[name] = node.add_overlay(IdentityCommunity, settings)
         # "fully introduced": every node has every other node as a verified peer at its true address
         for a in NODES:
@@ -252,6 +256,10 @@ class Model(core.BfsModel):
         g = set(c["groups"])
         if "adv" in g:
             al += [("adv", "B")]
+        if "advd" in g:
+            al += [("adv", "D")]
+        if "rmd" in g:
+            al += [("rmto", "T", "D", known) for known in c["rm_known"]]
         if "replay" in g:
             al += [("replay", s, j, mode) for s in c["req_subjects"] for j in range(c["max_replay"])
                    for mode in ("own", "other")]
@@ -401,6 +409,9 @@ class Model(core.BfsModel):
         elif kind == "rm":
             _, k, known = ev
             w.inject(k, "B", w.pack(k, RequestMissingPayload(known)))
+        elif kind == "rmto":
+            _, k, target, known = ev
+            w.inject(k, target, w.pack(k, RequestMissingPayload(known)))
         elif kind == "att":
             self._attest_event(w, ev[1])
         else:
@@ -720,6 +731,10 @@ def configs(ctx: core.Ctx) -> list[tuple[Model, int]]:
     # D may swap the metadata it advertises, replay, re-word the metadata, let the five minutes pass
     channel = _cfg(hashes=1, names=1, reg_keys=[], reg_md=[], req_subjects=["D"], req_extra=[], time=[301],
                    groups=["channel", "replay", "remeta"], max_replay=2, channel=True)
+    # B and D are two pseudonyms of ONE process (one IdentityManager): B opens its chain to T, D only grows its own
+    # chain; T asks both for tokens
+    shared = _cfg(hashes=1, names=1, reg_keys=["B"], reg_md=[0], req_subjects=["B"], req_extra=[0], time=[],
+                  groups=["adv", "advd", "rm", "rmd"], shared_manager=True)
     full = _cfg()
     if ctx.thorough:
         return [
@@ -728,6 +743,7 @@ def configs(ctx: core.Ctx) -> list[tuple[Model, int]]:
             (Model("fields", fields, s), 4),
             (Model("fields-2x2", _cfg(hashes=1, reg_keys=["B"], req_subjects=["B"], groups=["replay"]), s), 5),
             (Model("tokens", tokens, s), 5),
+            (Model("shared", shared, s), 5),
             (Model("forged", {**forged, "time": [301], "groups": ["dis", "replay"]}, s), 3),
             (Model("channel", {**channel, "time": [299, 301], "max_replay": 3}, s), 6),
         ]
@@ -735,6 +751,7 @@ def configs(ctx: core.Ctx) -> list[tuple[Model, int]]:
         (Model("subjects", subjects, s), 4),
         (Model("fields", fields, s), 4),
         (Model("tokens", tokens, s), 4),
+        (Model("shared", shared, s), 4),
         (Model("forged", forged, s), 3),
         (Model("channel", channel, s), 5),
         (Model("full", full, s), 3),
